@@ -1230,7 +1230,7 @@ func TestVerifC02(t *testing.T) {
 	muts := c02muts()
 	scale := 1
 	if verifh.Thorough() {
-		scale = 10
+		scale = 12
 	}
 
 	// stream "minimal": the documents shipped with the code
@@ -1362,7 +1362,7 @@ func TestVerifC02(t *testing.T) {
 	}
 
 	// stream "random": mostly valid documents with 0..3 mutations (interactions)
-	for i := 0; i < 1500*scale*2; i++ {
+	for i := 0; i < 2000*scale; i++ {
 		id := fmt.Sprintf("c02-random-%d", i)
 		if !out.Wants(id) {
 			continue
@@ -1443,7 +1443,7 @@ func TestVerifC02(t *testing.T) {
 
 	// stream "bytes": malformed byte strings (mutated valid documents and raw noise); only
 	// "never panics" is asserted here (partial: tested, not proved).
-	for i := 0; i < 1500*scale; i++ {
+	for i := 0; i < 1000*scale; i++ {
 		id := fmt.Sprintf("c02-bytes-%d", i)
 		if !out.Wants(id) {
 			continue
